@@ -11,7 +11,8 @@ from .. import common, hook
 FUNCS = ['androguard.core.dex.read_null_terminated_string', 'readuleb128/readsleb128', 'DebugInfoItem.__init__',
          'HiddenApiClassDataItem.__init__', 'EncodedArray/EncodedAnnotation/EncodedCatchHandlerList.__init__',
          'androguard.core.axml.ARSCHeader.__init__ (dummy-data loop)', 'androguard.core.axml.StringBlock.__init__',
-         'androguard.core.apk.APK.parse_signatures_or_digests', 'APK.read_uint32_le']
+         'androguard.core.apk.APK.parse_signatures_or_digests', 'APK.read_uint32_le',
+         'androguard.core.axml.AXMLParser.__init__ / _do_next (chunk walk)', 'ARSCParser.__init__ (chunk walk)', 'ARSCHeader.end']
 
 
 class Counter:
@@ -71,6 +72,24 @@ def targets():
         f.seek(4)
         return axml.ARSCHeader(f).size
 
+    import struct as _st
+
+    def axml_doc(buf):
+        # a binary XML file: header + empty string pool, followed by the symbolic bytes as its chunk area
+        n = len(buf)
+        pre = _st.pack('<HHI', 0x0003, 8, 8 + 28 + n) + _st.pack('<HHIIIIII', 0x0001, 28, 28, 0, 0, 0, 28, 0)
+        p = axml.AXMLParser(SBytes(list(pre) + list(buf.items)))
+        k = 0
+        while p.is_valid() and next(p) != axml.END_DOCUMENT:
+            k += 1
+        return k
+
+    def arsc_doc(buf):
+        # a resource table: header + empty string pool, followed by the symbolic bytes as its chunk area
+        n = len(buf)
+        pre = _st.pack('<HHII', 0x0002, 12, 12 + 28 + n, 1) + _st.pack('<HHIIIIII', 0x0001, 28, 28, 0, 0, 0, 28, 0)
+        return len(axml.ARSCParser(SBytes(list(pre) + list(buf.items))).packages)
+
     def digests(buf):
         a = apkmod.APK.__new__(apkmod.APK)
         return len(a.parse_signatures_or_digests(buf))
@@ -83,6 +102,8 @@ def targets():
         'EncodedCatchHandlerList': (handlers, [4], [5, 6], lambda N: N + 2),
         'ARSCHeader': (arsc_header, [12, 14], [16, 20], lambda N: N + 2),
         'parse_signatures_or_digests': (digests, [12, 16], [20, 24], lambda N: N + 2),
+        'AXMLParser chunk walk': (axml_doc, [8, 12], [16, 20], lambda N: 4 * N + 16),
+        'ARSCParser chunk walk': (arsc_doc, [8, 12], [16, 20], lambda N: 4 * N + 16),
     }
 
 
@@ -140,14 +161,15 @@ def run(ctx):
         for N in (th if ctx.thorough else q):
             jobs.append((name, N))
     ctx.bounds = dict(targets={n: dict(N=(T[n][2] if ctx.thorough else T[n][1])) for n in T},
-                      bound='while iterations + range iterations <= N + 2 per function (N/128 + 3 for the chunked string reader)')
+                      bound='while / for iterations + range iterations <= N + 2 per function (N/128 + 3 for the chunked string '
+                      'reader, 4N + 16 for the chunk walks, whose header reader may skip dummy bytes one at a time)')
     ctx.stubs = ['SymIO / SymStruct', 'loop-head probe inserted by the import hook (no-op outside this check)',
                  'lazy symbolic range() with unwinding cap', 'ClassManager pool lookups stubbed', 'HiddenApi IntEnum conversions -> identity']
     ctx.assumptions = ['every loop iteration of these functions consumes at least one input byte or ends the loop; an exception '
                        'is an accepted way to finish', 'LinearSweepAlgorithm progress is C02, resource reference cycles C29']
     ctx.outside_claim = ['whole-file parses and buffers longer than the stated N', 'CPU time of C callees (zlib, lxml)',
-                         'AXMLParser/AXMLPrinter and the ARSC chunk walks (their loop state is covered through C26/C28 '
-                         'skeletons only)', 'parse_v2_v3_signature loops (C33 skeleton)']
+                         'the attribute / entry loops inside AXML and ARSC chunks (covered through the C26/C28 skeletons only)',
+                         'parse_v2_v3_signature loops (C33 skeleton)']
     import random
     rnd = random.Random(ctx.seed)
     cases = [[n, rnd.randbytes(N).hex()] for n in T for N in T[n][1] for _ in range(4) if n != 'read_null_terminated_string']
@@ -191,6 +213,18 @@ def _run_real(name, bs):
         return axml.ARSCHeader(f).size
     if name == 'parse_signatures_or_digests':
         return len(apkmod.APK.__new__(apkmod.APK).parse_signatures_or_digests(bs))
+    import struct as _st
+    n = len(bs)
+    if name == 'AXMLParser chunk walk':
+        pre = _st.pack('<HHI', 0x0003, 8, 8 + 28 + n) + _st.pack('<HHIIIIII', 0x0001, 28, 28, 0, 0, 0, 28, 0)
+        p = axml.AXMLParser(pre + bs)
+        k = 0
+        while p.is_valid() and next(p) != axml.END_DOCUMENT:
+            k += 1
+        return k
+    if name == 'ARSCParser chunk walk':
+        pre = _st.pack('<HHII', 0x0002, 12, 12 + 28 + n, 1) + _st.pack('<HHIIIIII', 0x0001, 28, 28, 0, 0, 0, 28, 0)
+        return len(axml.ARSCParser(pre + bs).packages)
     raise KeyError(name)
 
 
